@@ -175,7 +175,8 @@ class CxFormulas:
 # ------------------------------------------------------------------------------------------------ Python side
 class PyFormulas:
     def __init__(self, py):
-        self.f = py.fn("kinetics.compute_diffusion_rates")
+        from . import pynorm
+        self.f = pynorm.delocalised(py.fn("kinetics.compute_diffusion_rates"))      # `space = system.space` written out
         self.defs = {}
         for n in ast.walk(self.f):
             if isinstance(n, ast.Assign) and len(n.targets) == 1:
